@@ -120,8 +120,8 @@ func corpus() []desc {
 	// large hand-overs: more than the 4096-byte reader holds
 	c = append(c,
 		desc{Cfg: servlib.Cfg{}, HjIn: -1, Same: randBytes(r, 5000)},
-		desc{Cfg: servlib.Cfg{ReduceMem: true}, HjIn: -1, Same: randBytes(r, 4200), Later: []hlib.B{randBytes(r, 800)}},
-		desc{Cfg: servlib.Cfg{ReduceMem: true, ServeConn: true}, NoResp: true, HjIn: -1, Later: []hlib.B{randBytes(r, 3000)}},
+		desc{Cfg: servlib.Cfg{ReduceMem: true, KeepHijacked: true}, HjIn: 100, Late: true, Same: randBytes(r, 2200), Later: []hlib.B{randBytes(r, 300)}},
+		desc{Cfg: servlib.Cfg{ReduceMem: true, ServeConn: true}, NoResp: true, HjIn: -1, Later: []hlib.B{randBytes(r, 1500)}},
 	)
 	return c
 }
